@@ -11,6 +11,7 @@ def main():
     jobs = [("gen", sh) for sh in ([chk.seed % nsh, (chk.seed + 5) % nsh, (chk.seed + 11) % nsh] if q else range(nsh))]
     jobs += [("rank", sh) for sh in range(4)]
     jobs += [("battery", sh) for sh in range(4)]
+    jobs += [("swarm", sh) for sh in range(4)]          # exchanges still undecided after 16 recaptures (promoted minor pieces)
     if not q:
         jobs += [("stack", sh) for sh in range(4)]      # exchanges of up to eighteen captures on one square
     base = os.path.join(chk.outdir, "walk")
@@ -24,8 +25,8 @@ def main():
             p = "%s.%d" % (base, sh)
         else:
             cfg = os.path.join(chk.outdir, "gsee_%s_%d.cfg" % (kind, sh))
-            games.gen_cfg(cfg, {"SHARD": sh, "NSHARDS": 4 if kind in ("rank", "battery", "stack") else nsh, "DENSITY": 8 if q else 1,
-                                "MODE": kind if kind in ("rank", "battery", "stack") else "general"}, "INIT Init\nNEXT Next\n")
+            games.gen_cfg(cfg, {"SHARD": sh, "NSHARDS": 4 if kind in ("rank", "battery", "stack", "swarm") else nsh, "DENSITY": 8 if q else 1,
+                                "MODE": kind if kind in ("rank", "battery", "stack", "swarm") else "general"}, "INIT Init\nNEXT Next\n")
             g = vlib.tlc("Gen_See", cfg=cfg, timeout=3400, xmx="2g")
             if g.error:
                 raise vlib.ToolError("Gen_See: " + g.error)
@@ -55,7 +56,7 @@ def main():
             det = d["detail"]
             chk.violation("%s|%s|%s" % (d["what"], det.get("fen"), det.get("mv")), d["what"], d,
                           replay={"kind": "see-position", "fen": det.get("fen"), "events": ev})
-    if by.get("gen", 0) == 0 or by.get("rank", 0) == 0 or by.get("walk", 0) == 0 or tot["losing"] == 0:
+    if by.get("gen", 0) == 0 or by.get("rank", 0) == 0 or by.get("walk", 0) == 0 or by.get("swarm", 0) == 0 or tot["losing"] == 0:
         raise vlib.ToolError("vacuous SEE run: %s %s" % (tot, by))
     # the verdict is a function of the position: walks (castling, promotions, take-backs on one game) compare the verdicts of
     # the live game with those of the same position set up afresh, every event (Trace_Game clause filed under C20)
